@@ -1,6 +1,7 @@
 import CobyqaVerif.Lemmas.RunResult
 import CobyqaVerif.Props.C10
 import CobyqaVerif.Props.C03
+import CobyqaVerif.Props.C17
 
 /-!
 # C02 — the returned fun and maxcv are the true values at the returned x
@@ -10,7 +11,7 @@ evaluations.  Violation: `Props/C10.lean` (the reduced / scaled linear system ca
 residuals) and `Props/C17.lean` (the internal split carries the user's excesses).
 -/
 namespace Cobyqa
-open X
+open X Arith
 set_option linter.unusedSectionVars false
 variable (merit : Nat → Nat → Nat → X Int)
 
@@ -44,5 +45,152 @@ theorem linear_violation_true (R : Reduction Rat) (rows : List (List Rat × Rat)
   intro ab hab
   obtain ⟨h2, h3⟩ := hrows ab hab
   exact reduced_scaled_residual R ab.1 ab.2 z h1 h2 h3 h4 h5
+
+/-! ## assembly of `Problem.maxcv` (problem.py: `Problem.violation`, `Problem.maxcv`) -/
+
+/-- `np.max(·, initial=0.0)` of a concatenation is the larger of the two parts -/
+theorem maxInit0_append (a b : List Rat) : maxInit0 (a ++ b) = max (maxInit0 a) (maxInit0 b) := by
+  obtain ⟨a0, a1, a2⟩ := maxInit0_spec a
+  obtain ⟨b0, b1, b2⟩ := maxInit0_spec b
+  obtain ⟨c0, c1, c2⟩ := maxInit0_spec (a ++ b)
+  apply le_antisymm
+  · rcases c2 with c | c
+    · rw [c]; exact le_trans a0 (le_max_left _ _)
+    · rcases List.mem_append.mp c with h | h
+      · exact le_trans (a1 _ h) (le_max_left _ _)
+      · exact le_trans (b1 _ h) (le_max_right _ _)
+  · apply max_le
+    · rcases a2 with h | h
+      · rw [h]; exact c0
+      · exact c1 _ (List.mem_append.mpr (Or.inl h))
+    · rcases b2 with h | h
+      · rw [h]; exact c0
+      · exact c1 _ (List.mem_append.mpr (Or.inr h))
+
+/-- a block without a positive entry (an empty block, a block of zeros, a block of satisfied rows) does not
+change the largest violation -/
+theorem maxInit0_nonpos (l : List Rat) (h : ∀ x ∈ l, x ≤ 0) : maxInit0 l = 0 := by
+  obtain ⟨a, _, c⟩ := maxInit0_spec l
+  rcases c with c | c
+  · exact c
+  · exact le_antisymm (h _ c) a
+
+/-- `BoundConstraints.violation` for bounds that are not `is_feasible`: one entry
+`max(max(xl − x, x − xu), 0)` per variable, an infinite bound contributing `−inf` to the inner maximum -/
+def boundViolation : List (Lim Rat × Lim Rat) → List Rat → List Rat
+  | (lb, ub) :: t, x :: xs => maxInit0 (excesses lb ub x) :: boundViolation t xs
+  | _, _ => []
+
+/-- the amounts by which the components of `x` leave their finite bounds, in the user's terms -/
+def boundExcesses : List (Lim Rat × Lim Rat) → List Rat → List Rat
+  | (lb, ub) :: t, x :: xs => excesses lb ub x ++ boundExcesses t xs
+  | _, _ => []
+
+theorem maxInit0_idem_cons (v : List Rat) (t : List Rat) :
+    maxInit0 (maxInit0 v :: t) = maxInit0 (v ++ t) := by
+  have h1 : maxInit0 (maxInit0 v :: t) = max (maxInit0 [maxInit0 v]) (maxInit0 t) := by
+    rw [← maxInit0_append]; rfl
+  have h2 : maxInit0 [maxInit0 v] = maxInit0 v := by
+    obtain ⟨a, _, _⟩ := maxInit0_spec v
+    show max2 zeroA (maxInit0 v) = _
+    rw [max2_spec]
+    exact max_eq_right a
+  rw [h1, h2, maxInit0_append]
+
+/-- the bound part of the violation is the largest excess over a finite bound -/
+theorem boundViolation_true (bs : List (Lim Rat × Lim Rat)) (x : List Rat) :
+    maxInit0 (boundViolation bs x) = maxInit0 (boundExcesses bs x) := by
+  induction bs generalizing x with
+  | nil => simp [boundViolation, boundExcesses]
+  | cons p t ih =>
+    obtain ⟨lb, ub⟩ := p
+    cases x with
+    | nil => simp [boundViolation, boundExcesses]
+    | cons x xs =>
+      simp only [boundViolation, boundExcesses]
+      rw [maxInit0_idem_cons, maxInit0_append, maxInit0_append, ih]
+
+/-- `x` within the bounds: no excess is positive -/
+def InBox : List (Lim Rat × Lim Rat) → List Rat → Prop
+  | (lb, ub) :: t, x :: xs => (∀ e ∈ excesses lb ub x, e ≤ 0) ∧ InBox t xs
+  | _, _ => True
+
+theorem boundExcesses_inBox (bs : List (Lim Rat × Lim Rat)) (x : List Rat) (h : InBox bs x) :
+    ∀ e ∈ boundExcesses bs x, e ≤ 0 := by
+  induction bs generalizing x with
+  | nil => simp [boundExcesses]
+  | cons p t ih =>
+    obtain ⟨lb, ub⟩ := p
+    cases x with
+    | nil => simp [boundExcesses]
+    | cons x xs =>
+      simp only [boundExcesses, InBox] at h ⊢
+      intro e he
+      rcases List.mem_append.mp he with he | he
+      · exact h.1 e he
+      · exact ih xs h.2 e he
+
+/-- `Problem.violation` + `Problem.maxcv`: the bound block only when the bounds are not `is_feasible`, then the
+linear block, then the nonlinear block; `0.0` when no entry is non-zero, the maximum with initial `0.0` otherwise -/
+def assembleMaxcv (boundsFeasible : Bool) (b l n : List Rat) : Rat :=
+  let v := (if boundsFeasible then [] else b) ++ (l ++ n)
+  if v.all (fun e => decide (e = 0)) then 0 else maxInit0 v
+
+theorem all_zero_maxInit0 (v : List Rat) (h : v.all (fun e => decide (e = 0)) = true) : maxInit0 v = 0 :=
+  maxInit0_nonpos v fun x hx => by
+    have := List.all_eq_true.mp h x hx
+    simp at this
+    exact le_of_eq this
+
+/-- **C02, assembly.**  What `Problem.maxcv` returns is the largest of: the excesses of `x` over its finite bounds,
+the linear residuals, the nonlinear residuals, and zero — whether or not the bound block is computed, provided
+the bound block is skipped only at points within the bounds (which is what C01 establishes for every point the
+solver evaluates when the bounds are consistent). -/
+theorem maxcv_assembled_true (bf : Bool) (bs : List (Lim Rat × Lim Rat)) (x l n : List Rat)
+    (hbox : bf = true → InBox bs x) :
+    assembleMaxcv bf (boundViolation bs x) l n =
+      max (maxInit0 (boundExcesses bs x)) (max (maxInit0 l) (maxInit0 n)) := by
+  have key : maxInit0 ((if bf then [] else boundViolation bs x) ++ (l ++ n)) =
+      max (maxInit0 (boundExcesses bs x)) (max (maxInit0 l) (maxInit0 n)) := by
+    rw [maxInit0_append, maxInit0_append]
+    congr 1
+    cases bf with
+    | false => simpa using boundViolation_true bs x
+    | true =>
+      simp only [if_true]
+      rw [maxInit0_nonpos _ (boundExcesses_inBox bs x (hbox rfl))]
+      rfl
+  unfold assembleMaxcv
+  generalize (if bf = true then [] else boundViolation bs x) ++ (l ++ n) = v at key
+  simp only
+  by_cases h : v.all (fun e => decide (e = 0)) = true
+  · rw [if_pos h, ← key, all_zero_maxInit0 _ h]
+  · rw [if_neg h]; exact key
+
+/-- the returned `maxcv` is zero exactly when no bound is exceeded and no residual is positive -/
+theorem maxcv_zero_iff (bf : Bool) (bs : List (Lim Rat × Lim Rat)) (x l n : List Rat)
+    (hbox : bf = true → InBox bs x) :
+    assembleMaxcv bf (boundViolation bs x) l n = 0 ↔
+      (∀ e ∈ boundExcesses bs x, e ≤ 0) ∧ (∀ e ∈ l, e ≤ 0) ∧ (∀ e ∈ n, e ≤ 0) := by
+  rw [maxcv_assembled_true bf bs x l n hbox]
+  obtain ⟨a0, a1, _⟩ := maxInit0_spec (boundExcesses bs x)
+  obtain ⟨b0, b1, _⟩ := maxInit0_spec l
+  obtain ⟨c0, c1, _⟩ := maxInit0_spec n
+  constructor
+  · intro h
+    have h1 : maxInit0 (boundExcesses bs x) ≤ 0 := h ▸ le_max_left _ _
+    have h2 : maxInit0 l ≤ 0 := h ▸ le_trans (le_max_left _ _) (le_max_right _ _)
+    have h3 : maxInit0 n ≤ 0 := h ▸ le_trans (le_max_right _ _) (le_max_right _ _)
+    exact ⟨fun e he => le_trans (a1 e he) h1, fun e he => le_trans (b1 e he) h2, fun e he => le_trans (c1 e he) h3⟩
+  · rintro ⟨h1, h2, h3⟩
+    rw [maxInit0_nonpos _ h1, maxInit0_nonpos _ h2, maxInit0_nonpos _ h3]
+    simp
+
+/-- non-vacuity: inconsistent bounds `[1, 0]` (block computed), one violated row, one satisfied nonlinear value -/
+example : assembleMaxcv false (boundViolation [(.fin 1, .fin 0)] [1/2]) [3] [-1] = 3 ∧
+    assembleMaxcv true (boundViolation [(.fin 0, .pinf)] [1/2]) [0] [0] = 0 ∧ InBox [(.fin 0, .pinf)] [1/2] := by
+  refine ⟨by decide +kernel, by decide +kernel, ?_⟩
+  show (∀ e ∈ excesses (.fin (0 : Rat)) .pinf (1/2), e ≤ 0) ∧ True
+  decide +kernel
 
 end Cobyqa
